@@ -704,6 +704,17 @@ def c17_generic(tier):
                           ("disc_variant_float_named", False, "#[repr(u8)] pub enum X { A = 3, B { x: (u8, f64) } = 10 }"),
                           ("disc_variant_float_keyed", False, "#[repr(i8)] pub enum X { A = -1, B { #[eq(key = $.1)] x: (u8, f64) } = 10 }"),
                           ("disc_variant_ints", True, "#[repr(u8)] pub enum X { A(u8) = 1, B { x: (u8, i64) } = 2, C = 7 }"),
+                          # different types whose paths END in the same segment / the same type under several names; a type named like its field's type
+                          ("same_last_segment_eq_first", False, "pub struct X { pub raw: exact::Value, pub scaled: approx::Value }\n"
+                           "pub mod exact { #[derive(PartialEq, Eq)] pub struct Value(pub u8); } pub mod approx { #[derive(PartialEq)] pub struct Value(pub f64); }"),
+                          ("same_last_segment_float_first", False, "pub enum X { A(approx::Value, exact::Value), B(exact::Value) }\n"
+                           "pub mod exact { #[derive(PartialEq, Eq)] pub struct Value(pub u8); } pub mod approx { #[derive(PartialEq)] pub struct Value(pub f64); }"),
+                          ("same_last_segment_both_eq", True, "pub struct X { pub raw: exact::Value, pub scaled: other::Value }\n"
+                           "pub mod exact { #[derive(PartialEq, Eq)] pub struct Value(pub u8); } pub mod other { #[derive(PartialEq, Eq)] pub struct Value(pub i64); }"),
+                          ("alias_of_float", False, "pub struct X { pub a: u8, pub b: Exact, pub c: u8 }\npub type Exact = f64;"),
+                          ("same_type_twice_then_float", False, "pub struct X(pub u8, pub u8, pub f32, pub u8);"),
+                          ("item_named_like_float_wrapper", False, "pub struct X(pub inner::X, pub u8);\npub mod inner { #[derive(PartialEq)] pub struct X(pub f64); }"),
+                          ("generic_args_differ", False, "pub struct X(pub ::core::option::Option<u8>, pub ::core::option::Option<f64>);"),
                           # key expressions that go through `Self`
                           ("key_through_self_float", False, "pub struct X { #[eq(key = Self::k(&$))] pub a: f64 }\nimpl X { fn k(v: &f64) -> f64 { *v } }"),
                           ("key_through_self_int", True, "pub struct X { #[eq(key = Self::k(&$))] pub a: f64 }\nimpl X { fn k(v: &f64) -> i64 { *v as i64 } }"),
